@@ -156,10 +156,21 @@ def judge(pattern, custom):
     """Return (verdict, bucket_or_None, detail)."""
     sv.purge()
     texts = [pattern] + (list(custom.values()) if custom else [])
-    try:
+    def do():
         with warnings.catch_warnings():
             warnings.simplefilter('ignore')
-            obj = sv.compile(pattern, custom=custom) if custom is not None else sv.compile(pattern)
+            return sv.compile(pattern, custom=custom) if custom is not None else sv.compile(pattern)
+
+    try:
+        # "returns or raises": a call that does neither is interrupted after 10 s of CPU and judged by counting steps
+        kind, obj = common.guarded_call(do)
+        if kind == 'hang':
+            return 'bad', 'compile-does-not-return', (f'{pattern!r} custom={custom!r}: compile() burnt 10 s of CPU and then exceeded '
+                                                      f'3000000 traced steps inside soupsieve')
+        if kind == 'slow':
+            return 'slow-inconclusive', None, ''
+        if kind == 'raise':
+            raise obj
     except sv.SelectorSyntaxError as e:
         pos = None
         msg = str(e)
